@@ -227,6 +227,17 @@ def judge_member(w, loaded, model: Model, contracts, spec, cls: str, key: str, m
         manual = manual_verdict(hub, chk, kwargs, truth, lambda: Tok("manual-result"))
         w.count("manual_vs_real_calls")
         w.case((meta, cls, tuple(sorted((k, str(v)) for k, v in truth.items()))) if ids else None)
+        if manual[0] == "pre" and real == manual and chk.__postcondition_snapshots__ and chk.__postconditions__:
+            # a call the lists refuse: an integrator never evaluates the captures for it, so captures which are not defined for the
+            # refused arguments change nothing about the verdict
+            obs2 = runner.perform(loaded, model, dict(call, truth=dict(truth, **{"snap:*": "raise"})))
+            real2 = real_verdict(loaded, contracts, obs2, pre_ids, post_ids)
+            w.count("manual_vs_real_calls")
+            w.count("refused_calls_with_undefined_captures")
+            if real2 != manual:
+                w.violation("C18/manual-evaluation-disagrees-with-call",
+                            "{}.{} with {} and captures that are not defined for refused arguments: evaluating the introspected lists by hand "
+                            "gives {} but the real call gives {}".format(cls, key, truth, manual, real2), {"prog": spec, "call": call, "meta": meta})
         if manual[0] != real[0] or (manual[0] in ("pre", "post") and manual[1] != real[1]):
             w.violation("C18/manual-evaluation-disagrees-with-call",
                         "{}.{} with {}: evaluating the introspected lists by hand gives {} but the real call gives {}".format(
